@@ -31,6 +31,7 @@ from .definition import (
     get_named_type,
     is_input_object_type,
     is_interface_type,
+    is_named_type,
     is_object_type,
     is_union_type,
     is_wrapping_type,
@@ -349,7 +350,8 @@ class GraphQLSchema:
             add = types.add
             if is_union_type(abstract_type):
                 for type_ in abstract_type.types:
-                    add(type_.name)
+                    if is_named_type(type_):  # skip invalid (wrapped) member types
+                        add(type_.name)
             else:
                 implementations = self.get_implementations(
                     cast("GraphQLInterfaceType", abstract_type)
